@@ -15,6 +15,7 @@ from typing import Iterator, List, Set, Optional
 
 import os
 import glob
+import fnmatch
 
 from spil import Sid
 from spil import conf
@@ -146,11 +147,10 @@ class FindInPaths(FindByGlob):
                     debug(f"Path did not generate sid: {path}")
                     continue
                 # The glob can be fooled by the separator of the file name ("*_rig_*" matches "layout_x_rig_WORK"):
-                # the found Sid must carry the values that the search fixes.
+                # the found Sid must carry the values that the search fixes (or match its partial globs, eg. "a*").
                 if any(
-                    value != sid.get(key)
+                    not fnmatch.fnmatchcase(str(sid.get(key)), value.replace(">", "*"))
                     for key, value in search.fields.items()
-                    if not any(symbol in value for symbol in conf.search_symbols)
                 ):
                     debug(f"Found Sid does not have the searched values: {sid.uri} -- Search: {search.uri}")
                     continue
